@@ -44,10 +44,11 @@ def kat(run):
     key, blk, t0, t1 = T.var('key', 256), T.var('block', 256), T.var('t0', 64), T.var('t1', 64)
     args = [Buf('key', 32, init=key, writable=False), Sc('t0', 64, t0), Sc('t1', 64, t1), Buf('block', 32, init=blk)]
     res, ex = entry.run(mod, 'h_tf256_enc', args)
-    r = res[0]
     asg = {'key': int.from_bytes(bytes(range(0x10, 0x30)), 'little'), 't0': int.from_bytes(bytes(range(8)), 'little'),
            't1': int.from_bytes(bytes(range(8, 16)), 'little'), 'block': int.from_bytes(bytes(range(0xff, 0xdf, -1)), 'little')}
-    got = T.Evaluator(asg).val(r.mem(r.named['block'])).to_bytes(32, 'little').hex()
+    ev = T.Evaluator(asg)
+    r = [x for x in res if x.status == 'ret' and all(ev.val(c) == int(v) for c, v in x.pc)][0]      # the path this input takes
+    got = ev.val(r.mem(r.named['block'])).to_bytes(32, 'little').hex()
     assert got == 'e0d091ff0eea8fdfc98192e62ed80ad59d865d08588df476657056b5955e97df', got
     run.extra['kats_through_encoding'] = 1
 
@@ -64,7 +65,8 @@ def body(run, a):
     key, blk, t0, t1 = T.var('key', 512), T.var('block', 512), T.var('t0', 64), T.var('t1', 64)
     args = [Buf('key', 64, init=key, writable=False), Sc('t0', 64, t0), Sc('t1', 64, t1), Buf('block', 64, init=blk)]
     res, ex = entry.run(mod, 'h_tf512_enc', args)
-    got = res[0].mem(res[0].named['block'])
+    r_ = [x for x in res if x.status == 'ret'][0]
+    got = r_.mem(r_.named['block'])
     rot = [list(x) for x in spec.ROT[8]]
     rot[3][2] = 53
     bad = spec.encrypt(key, t0, t1, blk, 8, rot=rot)
